@@ -155,7 +155,7 @@ def execute(case):
     env = case["env"]
     V, keys, obs = [], [], []
     faults = {k: 0 for k in EXPECTED_FAULTS["C01"]}
-    probes = {"no_match_path": 0, "empty_or_blank_text": 0, "label_only_text": 0,
+    probes = {"long_text": 0, "no_match_path": 0, "empty_or_blank_text": 0, "label_only_text": 0,
               "step_cap_skipped": 0, "debug_iterator_drained": 0, "candidates_streamed": 0,
               "impossible_date_tokens": 0, "stacked_modifiers": 0, "fallback_constant_scorer": 0}
     n_eval = 0
@@ -205,6 +205,8 @@ def execute(case):
             n_eval += 1
             if not text.strip():
                 probes["empty_or_blank_text"] += 1
+            if len(text) > 250:
+                probes["long_text"] += 1
             low = text.lower()
             if _IMPOSSIBLE.search(low):
                 probes["impossible_date_tokens"] += 1
@@ -407,8 +409,14 @@ def _text(rng):
         return " ".join(rng.choice(workload.MODS) for _ in range(k)) + " " + \
             rng.choice(workload.PODS + ["", "morning"])
     if r < 0.74:
-        return rng.choice(["", " ", "  ", "\t", "#fun", "#fun #work", "#", "# ", "#1", "##a",
-                           "#a#b", "-", "--", ",", "()", "#-", "#_", " #x ", "a#b", "#über"])
+        t = rng.choice(["", " ", "  ", "\t", "#fun", "#fun #work", "#", "# ", "#1", "##a",
+                        "#a#b", "-", "--", ",", "()", "#-", "#_", " #x ", "a#b", "#über"]
+                       + workload.LABELS)
+        if rng.random() < 0.3:
+            # ... next to words / an expression
+            t = rng.choice(["%s lunch", "call bob %s", "%s tomorrow 5pm", "friday %s 8-9",
+                            "%s %s"]).replace("%s", t)
+        return t
     if r < 0.86:
         return _noise_text(rng)
     t = rng.choice(workload.FIXED_TEXTS)
@@ -425,6 +433,11 @@ def _text(rng):
             toks[i] = toks[i][::-1] if rng.random() < 0.3 else toks[i].upper()
         t = " ".join(toks[:8])
     return t
+
+
+LONG_WORDS = ["lorem", "ipsum", "dolor", "zahnarzt", "call", "bob", "xyzzy", "besprechung",
+              "review", "straße", "über", "日本", "kaffee", "notes", "re:", "fwd", "agenda",
+              "x", "—", "item", "(draft)", "v2", "und", "the", "with"]
 
 
 def _env(rng):
@@ -460,8 +473,24 @@ def plan(prop, tier, seed):
             elif sp < 0.16:
                 # the same text with letters a case-insensitive Unicode match folds together
                 t = workload.confuse(rng, t)
+            long_ = False
+            if sp >= 0.16 and sp < 0.185:
+                # a long note with one or two expressions somewhere in it ("bounded length" is
+                # not "short"): 40 - 700 words no pattern matches
+                def filler(k):
+                    return " ".join(rng.choice(LONG_WORDS) for _ in range(k))
+                n_w = rng.choice([40, 80, 150, 300, 700])
+                e1 = rng.choice([workload.structured_text(rng), "tomorrow 5pm", "12.12.2020",
+                                 "friday 8-9"])
+                t = "%s %s %s" % (filler(rng.randint(0, n_w)), e1, filler(rng.randint(0, n_w)))
+                if rng.random() < 0.4:
+                    t += " " + workload.structured_text(rng) + " " + filler(rng.randint(0, 30))
+                if rng.random() < 0.3:
+                    t += " #notes"
+                t = t.strip()
+                long_ = True
             chain = t.count(" - ") >= 3 and ".3.2020" in t
-            if not chain:
+            if not chain and not long_:
                 t = t[:80]
                 if len(t.split()) > 8:
                     t = " ".join(t.split()[:8])
